@@ -31,6 +31,7 @@ def run (line : String) : String :=
         | "C14" :: _ => judgeC14 o
         | "C15" :: st :: _ => judgeC15 o (parseRat st)
         | "C16" :: _ => judgeC16 o
+        | "C18" :: _ => judgeC18 o
         | "C20" :: n :: _ => judgeC20 o (parseNat! n)
         | _ => ["unknown judge"]
       if v.isEmpty then "ok" else "fail: " ++ " ;; ".intercalate (v.take 5)
